@@ -299,6 +299,67 @@ Definition call_eval (Q : Z) (args : list Z) (joint : bool) (result : Z) : bool 
   || limit_memory_usage Q [(1, result)].
 
 (* ------------------------------------------------------------------------- *)
+(* the call protocol under a quota                                           *)
+(* ------------------------------------------------------------------------- *)
+(* Only own sizes matter to the quota, so a value IS its size and a function is a
+   size transformer.  An expression is a value the host handed in (context data, a
+   literal) or a call whose arguments are expressions.
+   runner.call / specs.get_delegate: the arguments are evaluated left to right, then
+   every converted argument is checked (SmartType.convert -> limit_memory_usage(engine,
+   (1, value))), then the payload runs, then its result is checked
+   (runner.call -> limit_memory_usage(engine, (1, result))). *)
+Inductive cexpr : Type :=
+| CVal (size : Z)
+| CApp (f : list Z -> Z) (args : list cexpr).
+
+Definition over_quota (Q s : Z) : bool := limit_memory_usage Q [(1, s)].
+
+(* (result size, or None = MemoryQuotaExceededException;
+    log: every size that was BOUND TO A PARAMETER of a payload or RETURNED by a call, in order) *)
+Fixpoint ceval (Q : Z) (e : cexpr) {struct e} : option Z * list Z :=
+  match e with
+  | CVal s => (Some s, [])
+  | CApp f args =>
+    let '(rs, log) :=
+      (fix go (l : list cexpr) : option (list Z) * list Z :=
+         match l with
+         | [] => (Some [], [])
+         | a :: r =>
+           let '(ra, la) := ceval Q a in
+           match ra with
+           | None => (None, la)
+           | Some sa => let '(rr, lr) := go r in (option_map (cons sa) rr, la ++ lr)
+           end
+         end) args in
+    match rs with
+    | None => (None, log)
+    | Some sizes =>
+      if existsb (over_quota Q) sizes then (None, log)            (* argument conversion refuses *)
+      else let r := f sizes in
+           if over_quota Q r then (None, log ++ sizes)           (* the payload ran on its arguments; result refused *)
+           else (Some r, log ++ sizes ++ [r])
+    end
+  end.
+
+(* the same expression with no quota at all: its value, and every size that is an
+   argument or a result of some call inside it *)
+Fixpoint csize (e : cexpr) : Z :=
+  match e with
+  | CVal s => s
+  | CApp f args => f (map csize args)
+  end.
+
+Fixpoint cpoints (e : cexpr) : list Z :=
+  match e with
+  | CVal _ => []
+  | CApp f args => flat_map cpoints args ++ map csize args ++ [csize e]
+  end.
+
+(* a whole statement: the expression's value is the argument of '#finalize', whose
+   result is what the host receives (expressions.Statement) *)
+Definition crun (Q : Z) (fin : list Z -> Z) (e : cexpr) : option Z * list Z := ceval Q (CApp fin [e]).
+
+(* ------------------------------------------------------------------------- *)
 (* registry facts (rows are generated into Gen/LimitFacts.v)                  *)
 (* ------------------------------------------------------------------------- *)
 Inductive pkind := PEager | PLazy | PHidden.
@@ -390,7 +451,9 @@ Inductive case :=
 (* `x * c`: observed (raised, product computed, size of the product) *)
 | CMul (Q : Z) (k : kind) (n sz c csize : Z) (obs : bool * bool * Z)
 (* a growth step through the engine *)
-| CCall (Q : Z) (args : list Z) (joint : bool) (result : Z) (raised : bool).
+| CCall (Q : Z) (args : list Z) (joint : bool) (result : Z) (raised : bool)
+(* a tree of calls evaluated as one statement: raised? *)
+| CChain (Q : Z) (fin : Z) (e : cexpr) (raised : bool).
 
 Definition obs3_eqb (a b : bool * bool * Z) : bool :=
   let '(a1, a2, a3) := a in let '(b1, b2, b3) := b in
@@ -408,4 +471,6 @@ Definition case_ok_with (sizeof : sizefn) (c : case) : bool :=
   | CMul Q k n sz c cs obs =>
     obs3_eqb (mul_obs (mul_eval (estimate sizeof) sizeof Q k n sz c cs)) obs
   | CCall Q args joint result raised => Bool.eqb (call_eval Q args joint result) raised
+  | CChain Q fin e raised =>
+    Bool.eqb (match fst (crun Q (fun _ => fin) e) with None => true | Some _ => false end) raised
   end.
